@@ -26,11 +26,12 @@ func init() {
 			"LEB128: all 2^32 values in the thorough tier; quick: 4096 values on each side of every 7-bit boundary and a 2^16-stride sweep",
 		},
 		Scenarios: []mc.Scenario{
-			{Name: "payloader-depacketizer-roundtrip", Tiers: "qt", ShardDepth: 4, Run: c13Roundtrip},
-			{Name: "long-sequences-and-large-obus", Tiers: "qt", ShardDepth: 3, Run: c13Wide},
-			{Name: "reserved-header-bits", Tiers: "qt", ShardDepth: 2, Run: c13Reserved},
+			// the cheap scenarios first: what they leave of their share of the budget goes to the others
 			{Name: "leb128", Tiers: "qt", ShardDepth: 1, Run: c13Leb},
 			{Name: "obu-header-all-byte-pairs", Tiers: "qt", ShardDepth: 1, Run: c13Header},
+			{Name: "reserved-header-bits", Tiers: "qt", ShardDepth: 2, Run: c13Reserved},
+			{Name: "long-sequences-and-large-obus", Tiers: "qt", ShardDepth: 3, Run: c13Wide},
+			{Name: "payloader-depacketizer-roundtrip", Tiers: "qt", ShardDepth: 4, Run: c13Roundtrip},
 		},
 	})
 }
